@@ -815,3 +815,287 @@ Definition sym_witness_b : value := VMap [([98%N], VInt 1); ([97%N], VInt 2)].
 Lemma veq_sym_refuted : exists a b, wf_keys a = true /\ wf_keys b = true /\ clean_val a = true /\ clean_val b = true /\
   veq a b = Ok false /\ veq b a = Err None.
 Proof. exists sym_witness_a, sym_witness_b. vm_compute. repeat split; reflexivity. Qed.
+
+(* ================================================================= = is reflexive *)
+
+Lemma eq_scalar_refl : forall a,
+  match a with VList _ | VMap _ => False | _ => True end -> clean_val a = true -> eq_scalar a a = Ok true.
+Proof.
+  intros a. destruct a; cbn; try contradiction; try discriminate; intros _ H.
+  - rewrite Z.eqb_refl. reflexivity.
+  - rewrite fl_eqb_x, xeq_refl; [reflexivity|]. destruct f; cbn; congruence.
+  - rewrite str_eqb_refl. reflexivity.
+  - destruct b; reflexivity.
+Qed.
+
+Lemma veq_refl : forall a, wf_keys a = true -> clean_val a = true -> veq a a = Ok true.
+Proof.
+  intros a. induction a as [z|f|s|x|la IH|ma IH|ps body cap self|t] using value_ind2; intros Hw Hc;
+    try (cbn in Hc; discriminate Hc);
+    try (match goal with |- veq ?a ?a = _ => exact (eq_scalar_refl a I Hc) end).
+  - rewrite veq_list_eq. replace (len_differs la la) with false by (symmetry; apply len_differs_false; reflexivity).
+    apply list_go_true; [reflexivity|]. apply wf_keys_list in Hw. apply clean_val_list in Hc.
+    induction la as [|x la IHl]; [constructor|].
+    inversion IH; subst. inversion Hw; subst. inversion Hc; subst. constructor; auto.
+  - rewrite veq_map_eq. replace (len_differs ma ma) with false by (symmetry; apply len_differs_false; reflexivity).
+    apply map_go_true. apply wf_keys_map in Hw. destruct Hw as [Hn Hw]. apply clean_val_map in Hc.
+    rewrite Forall_forall in IH, Hw, Hc. intros k v Hin. exists v. split; [apply nodup_keys_in; assumption|].
+    apply (IH (k, v) Hin); [exact (Hw (k, v) Hin)|exact (Hc (k, v) Hin)].
+Qed.
+
+(* without the side conditions reflexivity fails: NaN, closures *)
+Lemma veq_refl_refuted :
+  veq (VFloat FNaN) (VFloat FNaN) = Ok false /\ veq (VClo [] (AConst (VInt 0)) [] []) (VClo [] (AConst (VInt 0)) [] []) = Err None.
+Proof. split; reflexivity. Qed.
+
+(* ================================================================= full symmetry when no map has two entries *)
+
+Lemma list_go_swap : forall f la lb,
+  Forall (fun x => forall y, f x y = f y x) la -> list_go f la lb = list_go f lb la.
+Proof.
+  intros f la. induction la as [|x la IH]; intros lb H.
+  - destruct lb; reflexivity.
+  - destruct lb as [|y lb]; [reflexivity|]. cbn [list_go]. inversion H as [|? ? Hx Hr]; subst.
+    rewrite Hx. destruct (f y x) as [[|]| | | |]; try reflexivity. apply IH. exact Hr.
+Qed.
+
+Lemma veq_sym_narrow : forall a b, narrow_maps a = true -> veq a b = veq b a.
+Proof.
+  intros a. induction a as [z|f|s|x|la IH|ma IH|ps body cap self|t] using value_ind2; intros b Hn;
+    try (match goal with |- veq ?a b = _ => destruct (veq_scalar_l a b I) as [E1 E2] end;
+         rewrite E1, E2; apply eq_scalar_sym).
+  - destruct b as [| | | |lb| | |];
+      try (match goal with |- veq ?a ?b = _ => destruct (veq_not_both a b I) as [E1 E2] end;
+           rewrite E1, E2; apply eq_scalar_sym).
+    rewrite !veq_list_eq, (len_differs_sym lb la). destruct (len_differs la lb); [reflexivity|].
+    apply list_go_swap. apply narrow_maps_list in Hn. rewrite Forall_forall in IH, Hn |- *.
+    intros x Hx y. apply IH; auto.
+  - destruct b as [| | | | |mb| |];
+      try (match goal with |- veq ?a ?b = _ => destruct (veq_not_both a b I) as [E1 E2] end;
+           rewrite E1, E2; apply eq_scalar_sym).
+    rewrite !veq_map_eq, (len_differs_sym mb ma). destruct (len_differs ma mb) eqn:L; [reflexivity|].
+    apply len_differs_false in L. apply narrow_maps_map in Hn. destruct Hn as [Hlen Hn].
+    destruct ma as [|[k v] [|? ?]]; cbn in Hlen; try lia.
+    + destruct mb; [reflexivity|discriminate].
+    + destruct mb as [|[k' o] [|? ?]]; try discriminate. cbn [map_go assoc_v].
+      rewrite (str_eqb_sym k' k). destruct (str_eqb k k'); [|reflexivity].
+      inversion IH as [|? ? Hv _]; subst. inversion Hn as [|? ? Hnv _]; subst. cbn [snd] in Hv, Hnv.
+      rewrite (Hv o Hnv). reflexivity.
+Qed.
+
+(* ================================================================= = against the evident equality *)
+
+Fixpoint sem_list_go (f : value -> value -> bool) (la lb : list value) : bool :=
+  match la, lb with
+  | [], [] => true
+  | x :: la', y :: lb' => f x y && sem_list_go f la' lb'
+  | _, _ => false
+  end.
+
+Fixpoint sem_map_go (f : value -> value -> bool) (other m : list (str * value)) : bool :=
+  match m with
+  | [] => true
+  | (k, v) :: m' => match assoc_v k other with Some o => f v o | None => false end && sem_map_go f other m'
+  end.
+
+Lemma sem_eq_list : forall la lb, sem_eq (VList la) (VList lb) = sem_list_go sem_eq la lb.
+Proof.
+  intros la. cbn [sem_eq]. induction la as [|x la IH]; intros [|y lb]; cbn [sem_list_go]; try reflexivity.
+  rewrite IH. reflexivity.
+Qed.
+
+Lemma sem_eq_map : forall ma mb,
+  sem_eq (VMap ma) (VMap mb) = Nat.eqb (length ma) (length mb) && sem_map_go sem_eq mb ma.
+Proof.
+  intros ma mb. cbn [sem_eq]. f_equal. induction ma as [|[k v] ma IH]; cbn [sem_map_go]; [reflexivity|].
+  rewrite IH. reflexivity.
+Qed.
+
+Lemma sem_list_go_len : forall f la lb, length la <> length lb -> sem_list_go f la lb = false.
+Proof.
+  intros f la. induction la as [|x la IH]; intros [|y lb] H; cbn in *; try reflexivity; try congruence.
+  rewrite IH by lia. apply andb_false_r.
+Qed.
+
+Lemma sem_map_go_true : forall f other m,
+  sem_map_go f other m = true <->
+  (forall k v, In (k, v) m -> exists o, assoc_v k other = Some o /\ f v o = true).
+Proof.
+  intros f other m. induction m as [|[k v] m IH]; cbn [sem_map_go].
+  - split; [intros _ k v []|reflexivity].
+  - rewrite andb_true_iff, IH. split.
+    + intros [H1 H2] k' v' [Heq|Hin]; [|apply H2; exact Hin].
+      inversion Heq; subst. destruct (assoc_v k' other) as [o|]; [|discriminate]. eauto.
+    + intros H. split.
+      * destruct (H k v (or_introl eq_refl)) as (o & Ho & Hf). rewrite Ho. exact Hf.
+      * intros k' v' Hin. apply H. right. exact Hin.
+Qed.
+
+(* whenever = answers with a boolean (in either direction) it is the evident equality *)
+Lemma veq_sound_both : forall a b r, wf_keys a = true -> wf_keys b = true ->
+  (veq a b = Ok r -> sem_eq a b = r) /\ (veq b a = Ok r -> sem_eq a b = r).
+Proof.
+  intros a. induction a as [z|f|s|x|la IH|ma IH|ps body cap self|t] using value_ind2; intros b r Ha Hb;
+    try (match goal with |- (veq ?a b = _ -> _) /\ _ => destruct (veq_scalar_l a b I) as [E1 E2] end;
+         rewrite E1, E2, (eq_scalar_sym b); split; apply eq_scalar_sem).
+  - destruct b as [| | | |lb| | |];
+      try (match goal with |- (veq ?a ?b = _ -> _) /\ _ => destruct (veq_not_both a b I) as [E1 E2] end;
+           rewrite E1, E2, (eq_scalar_sym _ (VList la)); split; apply eq_scalar_sem).
+    rewrite !veq_list_eq, (len_differs_sym lb la), sem_eq_list.
+    destruct (len_differs la lb) eqn:L.
+    + assert (length la <> length lb).
+      { intros E. apply len_differs_false in E. congruence. }
+      rewrite sem_list_go_len by assumption. split; intros H0; inversion H0; reflexivity.
+    + apply len_differs_false in L. apply wf_keys_list in Ha. apply wf_keys_list in Hb.
+      revert lb Hb L. induction la as [|x la IHl]; intros lb Hb L.
+      * destruct lb; [|discriminate]. cbn; split; intros H0; inversion H0; reflexivity.
+      * destruct lb as [|y lb]; [discriminate|].
+        inversion IH as [|? ? Hx Hr]; subst. inversion Ha as [|? ? Hax Har]; subst. inversion Hb as [|? ? Hby Hbr]; subst.
+        cbn [list_go sem_list_go]. cbn in L. assert (L' : length la = length lb) by lia.
+        specialize (IHl Hr Har lb Hbr L'). split.
+        -- destruct (veq x y) as [[|]| | | |] eqn:E; try discriminate.
+           ++ rewrite (proj1 (Hx y true Hax Hby) E). cbn. apply IHl.
+           ++ intros H0. inversion H0; subst. rewrite (proj1 (Hx y false Hax Hby) E). reflexivity.
+        -- destruct (veq y x) as [[|]| | | |] eqn:E; try discriminate.
+           ++ rewrite (proj2 (Hx y true Hax Hby) E). cbn. apply IHl.
+           ++ intros H0. inversion H0; subst. rewrite (proj2 (Hx y false Hax Hby) E). reflexivity.
+  - destruct b as [| | | | |mb| |];
+      try (match goal with |- (veq ?a ?b = _ -> _) /\ _ => destruct (veq_not_both a b I) as [E1 E2] end;
+           rewrite E1, E2, (eq_scalar_sym _ (VMap ma)); split; apply eq_scalar_sem).
+    rewrite !veq_map_eq, (len_differs_sym mb ma), sem_eq_map. unfold len_differs.
+    destruct (Nat.eqb (length ma) (length mb)) eqn:L; cbn [negb andb];
+      [|split; intros H0; inversion H0; reflexivity].
+    apply Nat.eqb_eq in L.
+    apply wf_keys_map in Ha. destruct Ha as [Hna Hwa]. apply wf_keys_map in Hb. destruct Hb as [Hnb Hwb].
+    rewrite Forall_forall in IH, Hwa, Hwb.
+    assert (IH1 : forall k v o q, In (k, v) ma -> In (k, o) mb -> veq v o = Ok q -> sem_eq v o = q).
+    { intros k v o q Hv Ho. exact (proj1 (IH (k, v) Hv o q (Hwa (k, v) Hv) (Hwb (k, o) Ho))). }
+    assert (IH2 : forall k v o q, In (k, v) ma -> In (k, o) mb -> veq o v = Ok q -> sem_eq v o = q).
+    { intros k v o q Hv Ho. exact (proj2 (IH (k, v) Hv o q (Hwa (k, v) Hv) (Hwb (k, o) Ho))). }
+    clear IH. split.
+    + (* receiver ma: both loops visit ma *)
+      assert (G : forall m, (forall k v, In (k, v) m -> In (k, v) ma) ->
+                  map_go veq mb m = Ok r -> sem_map_go sem_eq mb m = r).
+      { induction m as [|[k v] m IHm]; intros Hsub; cbn [map_go sem_map_go].
+        - intros H0. inversion H0. reflexivity.
+        - destruct (assoc_v k mb) as [o|] eqn:Eo; [|intros H0; inversion H0; reflexivity].
+          assert (Hv : In (k, v) ma) by (apply Hsub; left; reflexivity).
+          pose proof (assoc_v_in _ _ _ Eo) as Ho.
+          destruct (veq o v) as [[|]| | | |] eqn:E; try discriminate.
+          + rewrite (IH2 k v o true Hv Ho E). cbn. apply IHm. intros k' v' Hin. apply Hsub. right. exact Hin.
+          + intros H0. inversion H0; subst. rewrite (IH2 k v o false Hv Ho E). reflexivity. }
+      apply G. auto.
+    + (* receiver mb: the model visits mb, the specification ma *)
+      destruct r.
+      * intros H. rewrite map_go_true in H. apply sem_map_go_true.
+        intros k v Hv.
+        destruct (map_partner_swap (fun o v => veq o v = Ok true) (fun v o => sem_eq o v = true) mb ma Hnb Hna (eq_sym L) H) with (k := k) (o := v)
+          as (o & Ho & Hs); [|exact Hv|exists o; split; [exact Ho|exact Hs]].
+        intros k' vb va Hvb Hva E. exact (IH1 k' va vb true Hva Hvb E).
+      * intros H. apply map_go_false in H. destruct H as (k & vb & Hvb & Hc).
+        destruct (sem_map_go sem_eq mb ma) eqn:S; [|reflexivity]. exfalso.
+        rewrite sem_map_go_true in S.
+        destruct (map_partner_swap (fun o v => sem_eq v o = true) (fun v o => sem_eq v o = true) ma mb Hna Hnb L S) with (k := k) (o := vb)
+          as (va & Hva & Hs); [auto|exact Hvb|].
+        destruct Hc as [Hnone|(o & Ho & E)]; [congruence|].
+        rewrite Hva in Ho. inversion Ho; subst o.
+        pose proof (IH1 k va vb false (assoc_v_in _ _ _ Hva) Hvb E). congruence.
+Qed.
+
+Lemma veq_sound : forall a b r, wf_keys a = true -> wf_keys b = true -> veq a b = Ok r -> sem_eq a b = r.
+Proof. intros a b r Ha Hb. apply veq_sound_both; assumption. Qed.
+
+(* ---------- ... and it finds every equality (ints within the exact range) ---------- *)
+
+Lemma eq_scalar_complete : forall a b,
+  match a, b with VList _, VList _ | VMap _, VMap _ => False | _, _ => True end ->
+  small_ints a = true -> small_ints b = true -> sem_eq a b = true -> eq_scalar a b = Ok true.
+Proof.
+  intros a b. destruct a, b; try contradiction; intros _ Ha Hb H;
+    try (cbn in H; discriminate H);
+    try (exfalso; cbn in H; destruct f; discriminate H).
+  - cbn in H. rewrite dy_cmp_ints in H. cbn [eq_scalar]. rewrite Z.eqb_compare. destruct (z ?= z0); congruence.
+  - change (sem_eq (VInt z) (VFloat f)) with
+      (match xnum_of (VInt z), xnum_of (VFloat f) with Some x, Some y => xeq x y | _, _ => false end) in H.
+    rewrite xnum_of_float in H. cbn [xnum_of] in H.
+    cbn [eq_scalar]. destruct (fl_of_int_small z Ha) as [fx E]. rewrite E, fl_eqb_x.
+    rewrite (xeq_compat_l _ _ (xnum_fl f) (fl_of_int_x z fx E)). rewrite H. reflexivity.
+  - change (sem_eq (VFloat f) (VInt z)) with
+      (match xnum_of (VFloat f), xnum_of (VInt z) with Some x, Some y => xeq x y | _, _ => false end) in H.
+    rewrite xnum_of_float in H. cbn [xnum_of] in H.
+    cbn [eq_scalar]. destruct (fl_of_int_small z Hb) as [fy E]. rewrite E, fl_eqb_x.
+    rewrite xeq_sym, (xeq_compat_l _ _ (xnum_fl f) (fl_of_int_x z fy E)), xeq_sym, H. reflexivity.
+  - change (sem_eq (VFloat f) (VFloat f0)) with
+      (match xnum_of (VFloat f), xnum_of (VFloat f0) with Some x, Some y => xeq x y | _, _ => false end) in H.
+    rewrite !xnum_of_float in H. cbn [eq_scalar]. rewrite fl_eqb_x, H. reflexivity.
+  - cbn in H. cbn [eq_scalar]. rewrite H. reflexivity.
+  - cbn in H. cbn [eq_scalar]. rewrite H. reflexivity.
+Qed.
+
+Lemma sem_list_go_true : forall f la lb,
+  sem_list_go f la lb = true <-> Forall2 (fun x y => f x y = true) la lb.
+Proof.
+  intros f la. induction la as [|x la IH]; intros [|y lb]; cbn [sem_list_go].
+  - split; [constructor|reflexivity].
+  - split; [discriminate|intros H; inversion H].
+  - split; [discriminate|intros H; inversion H].
+  - rewrite andb_true_iff, IH. split; [intros [H1 H2]; constructor; assumption|intros H; inversion H; auto].
+Qed.
+
+Lemma Forall2_len : forall {A B} (R : A -> B -> Prop) la lb, Forall2 R la lb -> length la = length lb.
+Proof. intros A B R la lb H. induction H; cbn; congruence. Qed.
+
+Lemma veq_complete : forall a b, wf_keys a = true -> wf_keys b = true ->
+  small_ints a = true -> small_ints b = true -> sem_eq a b = true -> veq a b = Ok true.
+Proof.
+  intros a. induction a as [z|f|s|x|la IH|ma IH|ps body cap self|t] using value_ind2; intros b Ha Hb Sa Sb;
+    try (match goal with |- sem_eq ?a b = _ -> _ =>
+           destruct (veq_scalar_l a b I) as [E1 _]; rewrite E1; apply eq_scalar_complete; try assumption;
+           destruct b; exact I end).
+  - destruct b as [| | | |lb| | |]; try (cbn; discriminate).
+    rewrite sem_eq_list, veq_list_eq, sem_list_go_true. intros H.
+    assert (L : length la = length lb) by (eapply Forall2_len; exact H).
+    replace (len_differs la lb) with false by (symmetry; apply len_differs_false; exact L).
+    apply list_go_true; [exact L|].
+    apply wf_keys_list in Ha. apply wf_keys_list in Hb. apply small_ints_list in Sa. apply small_ints_list in Sb.
+    clear L. induction H as [|x y la lb Hxy Hrest IHf]; [constructor|].
+    inversion IH; subst. inversion Ha; subst. inversion Hb; subst. inversion Sa; subst. inversion Sb; subst.
+    constructor; auto.
+  - destruct b as [| | | | |mb| |]; try (cbn; discriminate).
+    rewrite sem_eq_map, veq_map_eq. unfold len_differs. intros H. apply andb_true_iff in H. destruct H as [L H].
+    rewrite L. cbn [negb]. apply map_go_true. rewrite sem_map_go_true in H.
+    apply wf_keys_map in Ha. destruct Ha as [Hna Hwa]. apply wf_keys_map in Hb. destruct Hb as [Hnb Hwb].
+    apply small_ints_map in Sa. apply small_ints_map in Sb. rewrite Forall_forall in IH, Hwa, Hwb, Sa, Sb.
+    intros k v Hv. destruct (H k v Hv) as (o & Ho & Hs). exists o. split; [exact Ho|].
+    pose proof (assoc_v_in _ _ _ Ho) as Hino.
+    apply veq_sym_true; [exact (Hwa (k, v) Hv)|exact (Hwb (k, o) Hino)|].
+    apply (IH (k, v) Hv o); [exact (Hwa (k, v) Hv)|exact (Hwb (k, o) Hino)|exact (Sa (k, v) Hv)|exact (Sb (k, o) Hino)|exact Hs].
+Qed.
+
+(* ---------- ints and floats by numeric value ---------- *)
+
+Lemma veq_int_float : forall z f, small_int z = true ->
+  veq (VInt z) (VFloat f) = Ok (xeq (XFin z 0) (xnum_fl f)) /\
+  veq (VFloat f) (VInt z) = Ok (xeq (XFin z 0) (xnum_fl f)).
+Proof.
+  intros z f Hs. destruct (fl_of_int_small z Hs) as [fx E].
+  change (veq (VInt z) (VFloat f)) with (eq_scalar (VInt z) (VFloat f)).
+  change (veq (VFloat f) (VInt z)) with (eq_scalar (VFloat f) (VInt z)).
+  cbn [eq_scalar]. rewrite E, !fl_eqb_x. rewrite (xeq_sym (xnum_fl f) (xnum_fl fx)).
+  rewrite (xeq_compat_l _ _ (xnum_fl f) (fl_of_int_x z fx E)). split; reflexivity.
+Qed.
+
+(* z = m * 2^e, cleared of the denominator when e < 0 *)
+Definition int_is_dyadic (z m e : Z) : Prop := if 0 <=? e then z = m * 2 ^ e else z * 2 ^ (- e) = m.
+
+Lemma xeq_int_fin : forall z m e, xeq (XFin z 0) (XFin m e) = true <-> int_is_dyadic z m e.
+Proof.
+  intros z m e. cbn [xeq]. unfold dy_cmp, int_is_dyadic. cbv zeta.
+  destruct (0 <=? e) eqn:E.
+  - replace (Z.min 0 e) with 0 by lia. rewrite !Z.sub_0_r. cbn [Z.pow]. rewrite Z.mul_1_r.
+    destruct (z ?= m * 2 ^ e) eqn:C; [apply Z.compare_eq in C; split; auto| |];
+      (split; [discriminate|intros ->; rewrite Z.compare_refl in C; discriminate]).
+  - replace (Z.min 0 e) with e by lia. rewrite Z.sub_diag. cbn [Z.pow]. rewrite Z.mul_1_r. rewrite Z.sub_0_l.
+    destruct (z * 2 ^ (- e) ?= m) eqn:C; [apply Z.compare_eq in C; split; auto| |];
+      (split; [discriminate|intros <-; rewrite Z.compare_refl in C; discriminate]).
+Qed.
